@@ -101,6 +101,11 @@ func stLabel(s *workflow.State) string {
 
 func (v *SimVault) UpdatePlan(ctx context.Context, p *workflow.Plan) error {
 	path := v.w.PathOf(p.ID)
+	if p.State != nil && (p.State.Status == workflow.Completed || p.State.Status == workflow.Failed) {
+		if i := PlanOfPath(path); i >= 0 {
+			v.w.SignalFinal(i)
+		}
+	}
 	ok, err := v.beforeWrite(fmt.Sprintf("UpdatePlan %s %s", path, stLabel(p.State)))
 	if !ok {
 		return err
